@@ -1303,3 +1303,22 @@ V("C13", "adv-memory-percent-check-after", I,
 V("C07", "adv-percpu-includes-aggregate", L,
   ("            if line.startswith(b'cpu'):\n                values = line.split()",
    "            if line.startswith(b'c'):\n                values = line.split()"), "fires:")
+V("C05", "adv-parent-strictly-older", I,
+  ("                if parent.create_time() <= ctime:", "                if parent.create_time() < ctime:"), "fires:")
+V("C05", "adv-children-strictly-younger", I,
+  ("                        if self.create_time() <= child.create_time():",
+   "                        if self.create_time() < child.create_time():"), "fires:")
+V("C05", "adv-children-rec-strictly-younger", I,
+  ("                        intime = self.create_time() <= child.create_time()",
+   "                        intime = self.create_time() < child.create_time()"), "fires:")
+V("C07", "adv-zero-interval-rejected", I,
+  ("    if interval is not None and interval < 0:\n        msg = f\"interval is not positive (got {interval})\"\n        raise ValueError(msg)\n\n    def calculate(t1, t2):\n        times_delta",
+   "    if interval is not None and interval <= 0:\n        msg = f\"interval is not positive (got {interval})\"\n        raise ValueError(msg)\n\n    def calculate(t1, t2):\n        times_delta"),
+  "fires:")
+V("C04", "adv-pid-exists-zero-false", I,
+  ("    if pid < 0:\n        return False\n    elif pid == 0 and POSIX:", "    if pid <= 0:\n        return False\n    elif pid == 0 and POSIX:"),
+  "fires:")
+V("C08", "adv-avail-ge-total", L,
+  ("    elif avail > total:", "    elif avail >= total:"), "fires:")
+V("C13", "adv-rss-vms-swapped", L,
+  ("            vms, rss, shared, text, lib, data, dirty = (", "            rss, vms, shared, text, lib, data, dirty = ("), "fires:")
